@@ -98,7 +98,23 @@ where
     pub(crate) fn unzip(self, expected_output_size: usize) -> Result<Vec<u8>> {
         let mut decoder = ZlibDecoder::new(self.input);
         let mut buffer = Vec::with_capacity(expected_output_size.min(MAX_PREALLOC));
-        decoder.read_to_end(&mut buffer)?;
+        // Stop one byte past the expected size: enough to notice an
+        // oversized stream without inflating all of it.
+        decoder
+            .take(expected_output_size as u64 + 1)
+            .read_to_end(&mut buffer)?;
+        if buffer.len() != expected_output_size {
+            return Err(AsepriteParseError::InvalidInput(format!(
+                "Invalid compressed data size. Expected: {}, Actual: {}{}",
+                expected_output_size,
+                buffer.len(),
+                if buffer.len() > expected_output_size {
+                    " or more"
+                } else {
+                    ""
+                }
+            )));
+        }
         Ok(buffer)
     }
 }
